@@ -4,6 +4,7 @@ CONSTANTS
   CalVals <- CV_Full
   Ls <- L_12
   Export = FALSE
+  Canonical = FALSE
   Variant = "code"
 INVARIANT ExactlyOne
 INVARIANT RightPool
